@@ -74,11 +74,26 @@ class Ctx:
         import bellows.types as t
 
         self.t = t
+        self._wire()
+
+    def reconnect(self, version):
+        """The same application object gets a new EZSP connection to an NCP of another protocol version
+        (what a reconnect after a firmware change does: ControllerApplication.connect() builds a fresh EZSP)."""
+        from mc.env import ezspenv as ee
+
+        self.version = version
+        self.ezsp, self.gw, self.ncp = ee.make_stack(self.loop, version)
+        self.app._ezsp = self.ezsp
+        self._wire()
+
+    def _wire(self):
+        t, zt = self.t, self.zt
         self.ncp.handlers["findKeyTableEntry"] = lambda a: [0xFF]
         self.ncp.handlers["setManufacturerCode"] = lambda a: []
         self.ncp.handlers["eraseKeyTableEntry"] = lambda a: [t.EmberStatus.SUCCESS]
         self.app.state.node_info.nwk = zt.NWK(OWN_NWK)
-        self.packets, self.joins, self.leaves = [], [], []
+        if not hasattr(self, "packets"):
+            self.packets, self.joins, self.leaves = [], [], []
         self.app.packet_received = lambda p: self.packets.append(p)
         self.app.handle_join = lambda nwk, ieee, parent, *a, **k: self.joins.append((int(nwk), bytes(ieee.serialize()), int(parent)))
         self.app.handle_leave = lambda nwk, ieee, *a, **k: self.leaves.append((int(nwk), bytes(ieee.serialize())))
@@ -236,10 +251,54 @@ def job(args):
     return version, n, packets, viol
 
 
+def reconnect_job(seq):
+    """One application object, reconnected to NCPs of the listed versions in turn."""
+    import logging
+
+    logging.disable(logging.CRITICAL)
+    viol = []
+    n = 0
+    ctx = Ctx(seq[0])
+    base = {k: v[0] for k, v in FIELDS.items()}
+    try:
+        for k, v in enumerate(seq):
+            if k:
+                ctx.reconnect(v)
+            for mtype in TYPES:
+                for field in ("lqi", "rssi", "sender", "paylen"):
+                    for val in FIELDS[field][:3]:
+                        c = dict(base)
+                        c[field] = val
+                        n += 1
+                        m = check_incoming(ctx, mtype, c)
+                        if m:
+                            import re
+
+                            key = "C13|reconnect|" + re.sub(r"0x[0-9a-f]+|-?\d+|b'.*?'|\(.*?\)", "#", m)[:60]
+                            viol.append((key, f"application reconnected {list(seq[:k + 1])}, now v{v}, type {mtype}: {m}",
+                                         {"world": "c13", "kind": "reconnect", "versions": list(seq[:k + 1]), "mtype": mtype,
+                                          "fields": {kk: (vv.hex() if isinstance(vv, bytes) else vv) for kk, vv in c.items()}}))
+            m = check_joins(ctx, [(0x0001, bytes([1, 0, 0, 0, 0, 0, 0, 0]), 1, 0, 0x1234)])
+            n += 1
+            if m:
+                viol.append(("C13|reconnect|join", f"application reconnected {list(seq[:k + 1])}: {m}", {"world": "c13", "kind": "reconnect", "versions": list(seq[:k + 1])}))
+    finally:
+        ctx.close()
+    return n, viol
+
+
+RECONNECT_SEQS = [(13, 14, 13), (14, 13), (4, 14, 8), (8, 9), (14, 14, 4), (12, 14)]
+
+
 def main(tier: str) -> int:
     rep = report.Report("C13", tier, "exploration")
+    rec = explore.pool().map(reconnect_job, RECONNECT_SEQS + ([(a, b) for a in range(4, 15) for b in range(4, 15) if a != b] if tier != "quick" else []))
     results = sorted(explore.pool().imap_unordered(job, [(v, tier) for v in ezspenv.VERSIONS], chunksize=1), key=lambda r: r[0])
     total = packets = 0
+    for n, viol in rec:
+        total += n
+        for key, msg, rp in viol:
+            rep.add_violation(key, msg, rp)
     for version, n, p, viol in results:
         total += n
         packets += p
@@ -254,7 +313,7 @@ def main(tier: str) -> int:
         "exhaustive": True,
         "rule": "versions 4..14 x message type 0..7 x field boundary sets (base, one-at-a-time, all pairs; thorough: triples) for 15 fields incl. signed RSSI extremes and payload "
                 "lengths 0..200; trust-centre join: 8 status values x 5 decisions x 2 addresses x 4 EUI64s (incl. manufacturer-override prefixes) x 2 parents, singly and as pairs "
-                "delivered in one read; non-trivial = frames that must produce a packet",
+                "delivered in one read; the same application object reconnected to NCPs of other versions (6 sequences quick, all ordered pairs thorough); non-trivial = frames that must produce a packet",
         "samples": [{"version": 14, "mtype": 2, "fields": {k: (v.hex() if isinstance(v, bytes) else v) for k, v in {k: v[0] for k, v in FIELDS.items()}.items()}},
                     {"join": [1, "0100000000000000", 1, 0, 0x1234]}],
     }
@@ -268,6 +327,12 @@ def main(tier: str) -> int:
 
 def replay(data) -> int:
     ctx = Ctx(data["version"])
+    if data["kind"] == "reconnect":
+        ctx.close()
+        n, viol = reconnect_job(tuple(data["versions"]))
+        for v in viol:
+            print("VIOLATION:", v[1])
+        return 1 if viol else 0
     if data["kind"] == "incoming":
         c = {k: (bytes.fromhex(v) if isinstance(v, str) else v) for k, v in data["fields"].items()}
         m = check_incoming(ctx, data["mtype"], c)
